@@ -64,6 +64,8 @@ def _expand_shard(arg):
     out = []
     for n, hist in enumerate(hists):
         w, _ = run_history(world_cls, seed, hist, params)
+        if w.violations and not hist:
+            continue  # bad initial state: reported by the parent, nothing to expand
         if w.violations:
             # the prefix was clean when it was put on the frontier: nondeterminism
             raise HarnessError(f"history {hist} was clean before and violates now: {w.violations}")
@@ -109,6 +111,9 @@ def explore(ctx, world_path, depth, params=None, twice_every=1, fresh_every=0, s
     counts/violations into ``ctx``."""
     world_cls = _resolve(world_path)
     w0 = world_cls(ctx.seed, **(params or {}))
+    for k, what, det in w0.violations:  # the initial state itself may already be bad
+        ctx.violation(k, what, {"world": world_path, "params": params, "history": []},
+                      **(det if isinstance(det, dict) else {"details": det}))
     seen = {w0.canon()}
     frontier = [[]]
     transitions = 0
